@@ -31,6 +31,8 @@ type c04Mode struct {
 	AllowConflicts bool
 	NoConflictsArg bool   // the noConflicts argument of the push (a CBL 2.x style client)
 	RevsLimit      uint32 // 0: database default
+	Phase          int    // modes of one phase run together; the test bucket pool has 4 buckets, so databases are reused between phases
+	Idx            int
 }
 
 type c04DBEnv struct {
@@ -40,16 +42,20 @@ type c04DBEnv struct {
 	coll *DatabaseCollectionWithUser
 }
 
-func c04OpenDB(t *testing.T, mode c04Mode) *c04DBEnv {
+func c04OpenDB(t *testing.T, allowConflicts bool) *c04DBEnv {
 	db, ctx := SetupTestDBWithOptions(t, DatabaseContextOptions{
-		AllowConflicts: base.Ptr(mode.AllowConflicts),
+		AllowConflicts: base.Ptr(allowConflicts),
 		CacheOptions:   base.Ptr(DefaultCacheOptions()),
 	})
-	if mode.RevsLimit > 0 {
-		db.RevsLimit = mode.RevsLimit
-	}
 	coll, ctx := GetSingleDatabaseCollectionWithUser(ctx, t, db)
-	return &c04DBEnv{mode: mode, db: db, ctx: ctx, coll: coll}
+	return &c04DBEnv{db: db, ctx: ctx, coll: coll}
+}
+
+// withMode: the same database seen under a mode (document ids carry the mode index).
+func (e *c04DBEnv) withMode(m c04Mode) *c04DBEnv {
+	c := *e
+	c.mode = m
+	return &c
 }
 
 const c04FlagMask = channels.Deleted | channels.Conflict | channels.Branched
@@ -71,7 +77,7 @@ func c04FlagString(f uint8) string {
 // maximum leaf; Deleted / Conflict / Branched indicators = functions of the leaf set.
 func c04CheckDoc(ctx context.Context, doc *Document) (c04TreeFacts, []c04Problem) {
 	facts, probs := c04CheckTree(ctx, doc.History, true)
-	add := func(oracle, sig, msg string) { probs = append(probs, c04Problem{oracle, sig, msg}) }
+	add := func(oracle, sig, msg string) { probs = append(probs, c04Problem{Oracle: oracle, Sig: sig, Msg: msg}) }
 	if cur := doc.GetRevTreeID(); cur != facts.Winner {
 		cls := "other"
 		if info := doc.History[cur]; info == nil {
@@ -103,6 +109,34 @@ func c04CheckDoc(ctx context.Context, doc *Document) (c04TreeFacts, []c04Problem
 		add("indicators", "document-Branched-flag-disagrees-with-leaves", fmt.Sprintf("flags %s, leaves %v", c04FlagString(doc.Flags), c04LeafList(facts)))
 	}
 	return facts, probs
+}
+
+// c04ClassifyAfterWrite gives one history shape its own, call-site independent signature: the Branched
+// indicator is still set although a single leaf is left, and the write that produced this document pruned a
+// tombstoned branch (a tombstoned leaf of the previous version, or the tombstone just written, is gone).
+func c04ClassifyAfterWrite(probs []c04Problem, prev *Document, stored *Document, written string, writtenDeleted bool) []c04Problem {
+	for i := range probs {
+		if probs[i].Sig != "document-Branched-flag-disagrees-with-leaves" || stored.Flags&channels.Branched == 0 {
+			continue
+		}
+		lost := ""
+		if prev != nil {
+			for id, info := range prev.History.Leaves() {
+				if info.Deleted && stored.History[id] == nil {
+					lost = id
+				}
+			}
+		}
+		if lost == "" && writtenDeleted && stored.History[written] == nil {
+			lost = written
+		}
+		if lost != "" {
+			probs[i].Global = true
+			probs[i].Sig = "db|pruning|Branched-indicator-stale-after-write-that-pruned-a-tombstoned-branch"
+			probs[i].Msg += fmt.Sprintf("; this write pruned the tombstoned branch ending in %q after the indicators had been computed", lost)
+		}
+	}
+	return probs
 }
 
 // c04ShapeDiff compares ids, parent links and tombstone flags of two trees.
@@ -170,10 +204,11 @@ type c04DocResult struct {
 }
 
 type c04Job struct {
-	env    *c04DBEnv
-	setIdx int
-	set    c04Set
-	orders [][]int
+	env     *c04DBEnv
+	setIdx  int
+	set     c04Set
+	orders  [][]int
+	hostile bool
 }
 
 func (e *c04DBEnv) body(tag string, rev c04Rev) Body {
@@ -189,7 +224,7 @@ func (e *c04DBEnv) body(tag string, rev c04Rev) Body {
 
 // c04AfterWrite re-reads the document and applies the per-write oracles. `returned` is the document the
 // write returned (nil for a rejected or no-op write); `s`/`accepted` describe what has been accepted so far.
-func c04AfterWrite(run *vlib.Run, e *c04DBEnv, res *c04DocResult, s c04Set, tag string, returned *Document, pushed string, cnt map[string]int, wit func() map[string]any) (stored *Document, facts c04TreeFacts, ok bool) {
+func c04AfterWrite(run *vlib.Run, e *c04DBEnv, res *c04DocResult, s c04Set, tag string, prev *Document, returned *Document, pushed string, pushedDeleted bool, cnt map[string]int, wit func() map[string]any) (stored *Document, facts c04TreeFacts, ok bool) {
 	where := "db|" + e.mode.Name
 	anyAccepted := false
 	for _, a := range res.Accepted {
@@ -205,6 +240,7 @@ func c04AfterWrite(run *vlib.Run, e *c04DBEnv, res *c04DocResult, s c04Set, tag 
 	}
 	cnt["documents_reloaded"]++
 	facts, probs := c04CheckDoc(e.ctx, stored)
+	probs = c04ClassifyAfterWrite(probs, prev, stored, pushed, pushedDeleted)
 	cnt["trees_checked"]++
 	if _, rp := c04RoundTrip(e.ctx, stored.History); len(rp) > 0 {
 		for _, p := range rp {
@@ -216,18 +252,18 @@ func c04AfterWrite(run *vlib.Run, e *c04DBEnv, res *c04DocResult, s c04Set, tag 
 		// store -> reload preserves the tree, the current revision and the indicators
 		cnt["reloads_compared"]++
 		if d := c04ShapeDiff(returned.History, stored.History); d != "" {
-			probs = append(probs, c04Problem{"reload", "reloaded-tree-differs-from-written-tree", fmt.Sprintf("written vs reloaded: %s; written %v reloaded %v", d, c04Dump(returned.History), c04Dump(stored.History))})
+			probs = append(probs, c04Problem{Oracle: "reload", Sig: "reloaded-tree-differs-from-written-tree", Msg: fmt.Sprintf("written vs reloaded: %s; written %v reloaded %v", d, c04Dump(returned.History), c04Dump(stored.History))})
 		}
 		if returned.GetRevTreeID() != stored.GetRevTreeID() {
-			probs = append(probs, c04Problem{"reload", "reloaded-current-revision-differs", fmt.Sprintf("written %q reloaded %q", returned.GetRevTreeID(), stored.GetRevTreeID())})
+			probs = append(probs, c04Problem{Oracle: "reload", Sig: "reloaded-current-revision-differs", Msg: fmt.Sprintf("written %q reloaded %q", returned.GetRevTreeID(), stored.GetRevTreeID())})
 		}
 		const m = c04FlagMask | channels.Hidden
 		if returned.Flags&m != stored.Flags&m {
-			probs = append(probs, c04Problem{"reload", "reloaded-indicators-differ", fmt.Sprintf("written %s reloaded %s", c04FlagString(returned.Flags), c04FlagString(stored.Flags))})
+			probs = append(probs, c04Problem{Oracle: "reload", Sig: "reloaded-indicators-differ", Msg: fmt.Sprintf("written %s reloaded %s", c04FlagString(returned.Flags), c04FlagString(stored.Flags))})
 		}
 		// Hidden: "this rev is not the default" - the revision just written is not the current one
 		if hid := stored.Flags&channels.Hidden != 0; hid != (pushed != stored.GetRevTreeID()) {
-			probs = append(probs, c04Problem{"indicators", "document-Hidden-flag-disagrees-with-written-revision", fmt.Sprintf("flags %s after writing %q, current revision %q", c04FlagString(stored.Flags), pushed, stored.GetRevTreeID())})
+			probs = append(probs, c04Problem{Oracle: "indicators", Sig: "document-Hidden-flag-disagrees-with-written-revision", Msg: fmt.Sprintf("flags %s after writing %q, current revision %q", c04FlagString(stored.Flags), pushed, stored.GetRevTreeID())})
 		}
 	}
 	// what was accepted determines the tree
@@ -241,7 +277,7 @@ func c04AfterWrite(run *vlib.Run, e *c04DBEnv, res *c04DocResult, s c04Set, tag 
 		bb, berr := stored.BodyBytes(e.ctx)
 		want := tag + "/" + facts.Winner
 		if berr != nil || c04Marker(bb) != want {
-			probs = append(probs, c04Problem{"winning-body", "stored-body-is-not-the-winning-revisions-body", fmt.Sprintf("current revision %q, stored body marker %q (err %v), pushed with marker %q", facts.Winner, c04Marker(bb), berr, want)})
+			probs = append(probs, c04Problem{Oracle: "winning-body", Sig: "stored-body-is-not-the-winning-revisions-body", Msg: fmt.Sprintf("current revision %q, stored body marker %q (err %v), pushed with marker %q", facts.Winner, c04Marker(bb), berr, want)})
 		}
 		cnt["winning_bodies_checked"]++
 		// the same through the read API (revision cache)
@@ -250,7 +286,7 @@ func c04AfterWrite(run *vlib.Run, e *c04DBEnv, res *c04DocResult, s c04Set, tag 
 			cnt["getrev_errors"]++
 			run.Note("GetRev(current) of %s in %s: %v", res.Doc, e.mode.Name, rerr)
 		} else if rev.RevID != facts.Winner || rev.Deleted || c04Marker(rev.BodyBytes) != want {
-			probs = append(probs, c04Problem{"winning-body", "read-api-current-revision-differs-from-winner", fmt.Sprintf("GetRev(current) = rev %q deleted=%v marker %q; winner %q marker %q", rev.RevID, rev.Deleted, c04Marker(rev.BodyBytes), facts.Winner, want)})
+			probs = append(probs, c04Problem{Oracle: "winning-body", Sig: "read-api-current-revision-differs-from-winner", Msg: fmt.Sprintf("GetRev(current) = rev %q deleted=%v marker %q; winner %q marker %q", rev.RevID, rev.Deleted, c04Marker(rev.BodyBytes), facts.Winner, want)})
 		}
 	}
 	if len(probs) > 0 {
@@ -266,7 +302,7 @@ func c04RunDoc(run *vlib.Run, e *c04DBEnv, job c04Job, oi int, cnt map[string]in
 	s := job.set
 	order := job.orders[oi]
 	tag := fmt.Sprintf("s%d", job.setIdx)
-	res := &c04DocResult{Doc: fmt.Sprintf("c04-%s-o%d", tag, oi), Order: append([]int{}, order...), ParentFirst: s.parentsFirst(order), Accepted: make([]bool, len(s))}
+	res := &c04DocResult{Doc: fmt.Sprintf("c04-m%d-%s-o%d", e.mode.Idx, tag, oi), Order: append([]int{}, order...), ParentFirst: s.parentsFirst(order), Accepted: make([]bool, len(s))}
 	where := "db|" + e.mode.Name
 	wit := func() map[string]any {
 		revs := []map[string]any{}
@@ -303,7 +339,7 @@ func c04RunDoc(run *vlib.Run, e *c04DBEnv, job c04Job, oi int, cnt map[string]in
 			res.Events = append(res.Events, fmt.Sprintf("push %s accepted, current %s flags %s", s[i].ID, doc.GetRevTreeID(), c04FlagString(doc.Flags)))
 		}
 		var ok bool
-		stored, facts, ok = c04AfterWrite(run, e, res, s, tag, doc, s[i].ID, cnt, wit)
+		stored, facts, ok = c04AfterWrite(run, e, res, s, tag, stored, doc, s[i].ID, s[i].Deleted, cnt, wit)
 		if !ok && res.Broken {
 			return res
 		}
@@ -430,10 +466,10 @@ func c04AfterWriteEdit(run *vlib.Run, e *c04DBEnv, res *c04DocResult, s c04Set, 
 	if returned != nil {
 		cnt["reloads_compared"]++
 		if d := c04ShapeDiff(returned.History, stored.History); d != "" {
-			probs = append(probs, c04Problem{"reload", "reloaded-tree-differs-from-written-tree", d})
+			probs = append(probs, c04Problem{Oracle: "reload", Sig: "reloaded-tree-differs-from-written-tree", Msg: d})
 		}
 		if returned.GetRevTreeID() != stored.GetRevTreeID() {
-			probs = append(probs, c04Problem{"reload", "reloaded-current-revision-differs", fmt.Sprintf("written %q reloaded %q", returned.GetRevTreeID(), stored.GetRevTreeID())})
+			probs = append(probs, c04Problem{Oracle: "reload", Sig: "reloaded-current-revision-differs", Msg: fmt.Sprintf("written %q reloaded %q", returned.GetRevTreeID(), stored.GetRevTreeID())})
 		}
 	}
 	probs = append(probs, c04CompareToModel(stored.History, facts, s.modelFacts(res.Accepted))...)
@@ -445,7 +481,7 @@ func c04AfterWriteEdit(run *vlib.Run, e *c04DBEnv, res *c04DocResult, s c04Set, 
 		}
 		bb, berr := stored.BodyBytes(e.ctx)
 		if berr != nil || c04Marker(bb) != want {
-			probs = append(probs, c04Problem{"winning-body", "stored-body-is-not-the-winning-revisions-body", fmt.Sprintf("after writing %q: current revision %q, stored body marker %q (err %v), pushed with marker %q", written, facts.Winner, c04Marker(bb), berr, want)})
+			probs = append(probs, c04Problem{Oracle: "winning-body", Sig: "stored-body-is-not-the-winning-revisions-body", Msg: fmt.Sprintf("after writing %q: current revision %q, stored body marker %q (err %v), pushed with marker %q", written, facts.Winner, c04Marker(bb), berr, want)})
 		}
 		cnt["winning_bodies_checked"]++
 	}
@@ -461,11 +497,18 @@ func c04AfterWriteEdit(run *vlib.Run, e *c04DBEnv, res *c04DocResult, s c04Set, 
 func c04HostileDoc(run *vlib.Run, e *c04DBEnv, job c04Job, cnt map[string]int) {
 	s := job.set
 	tag := fmt.Sprintf("s%d", job.setIdx)
-	docID := fmt.Sprintf("c04-%s-hostile", tag)
+	docID := fmt.Sprintf("c04-m%d-%s-hostile", e.mode.Idx, tag)
 	var events []string
 	for i := range s {
 		_, _, err := e.coll.PutExistingRevWithBody(e.ctx, docID, e.body(tag, s[i]), s.history(i), e.mode.NoConflictsArg, ExistingVersionWithUpdateToHLV)
-		events = append(events, fmt.Sprintf("push %v -> %v", s.history(i), err))
+		events = append(events, fmt.Sprintf("push %v (deleted=%v) -> %v", s.history(i), s[i].Deleted, err))
+	}
+	cur, gerr := e.coll.GetDocument(e.ctx, docID, DocUnmarshalAll)
+	if gerr != nil {
+		return
+	}
+	if _, probs := c04CheckDoc(e.ctx, cur); len(probs) > 0 {
+		return // already reported by the parents-first order of the ordinary documents
 	}
 	for i := range s {
 		hists := [][]string{append([]string{c04RevID(s[i].Gen, "zz")}, s.history(i)...)}
@@ -473,37 +516,140 @@ func c04HostileDoc(run *vlib.Run, e *c04DBEnv, job c04Job, cnt map[string]int) {
 			hists = append(hists, append([]string{c04RevID(s[i].Gen-1, "zz")}, s.history(i)...))
 		}
 		hists = append(hists, []string{c04RevID(s[i].Gen+1, "yy"), c04RevID(s[i].Gen+1, "xx")})
-		for _, h := range hists {
-			_, _, err := e.coll.PutExistingRevWithBody(e.ctx, docID, Body{"m": tag + "/hostile", "channels": []string{"c04"}}, h, e.mode.NoConflictsArg, ExistingVersionWithUpdateToHLV)
-			cnt["hostile_pushes"]++
-			if err != nil {
-				cnt["hostile_rejected"]++
+		h := hists[(i+job.setIdx)%len(hists)] // one hostile push per revision
+		hd, _, err := e.coll.PutExistingRevWithBody(e.ctx, docID, Body{"m": tag + "/hostile", "channels": []string{"c04"}}, h, e.mode.NoConflictsArg, ExistingVersionWithUpdateToHLV)
+		cnt["hostile_pushes"]++
+		if err != nil {
+			cnt["hostile_rejected"]++
+		}
+		events = append(events, fmt.Sprintf("hostile push %v -> %v", h, err))
+		stored, gerr := e.coll.GetDocument(e.ctx, docID, DocUnmarshalAll)
+		if gerr != nil {
+			continue
+		}
+		cnt["trees_checked"]++
+		_, probs := c04CheckDoc(e.ctx, stored)
+		probs = c04ClassifyAfterWrite(probs, cur, stored, h[0], false)
+		if d := c04ShapeDiff(cur.History, stored.History); (err != nil || hd == nil) && d != "" {
+			probs = append(probs, c04Problem{Oracle: "insertion", Sig: "rejected-push-changed-the-stored-tree", Msg: d})
+		}
+		if len(probs) > 0 {
+			c04Report(run, "db|"+e.mode.Name+"|hostile-push", probs, map[string]any{"level": "database", "mode": e.mode, "doc": docID, "set": s.key(), "events": events})
+			return
+		}
+		cur = stored
+	}
+}
+
+// c04LongChain reaches pruning at the database's own (default) revs_limit: a document gets a tombstoned
+// branch next to a live one, then the live branch grows past revs_limit in pushes that carry the whole
+// ancestry. Same per-write oracles as everywhere: monitor on the re-read document, store -> reload, winning body.
+func c04LongChain(run *vlib.Run, e *c04DBEnv, cnt map[string]int) {
+	limit := int(e.db.RevsLimit)
+	for variant := 0; variant < 4; variant++ {
+		docID := fmt.Sprintf("c04-m%d-long-%d", e.mode.Idx, variant)
+		tag := "long"
+		type push struct {
+			hist    []string
+			deleted bool
+		}
+		chain := func(dig string, from, to int) []string { // [to-dig, ..., from-dig]
+			var h []string
+			for g := to; g >= from; g-- {
+				h = append(h, c04RevID(g, dig))
 			}
-			events = append(events, fmt.Sprintf("hostile push %v -> %v", h, err))
-			stored, gerr := e.coll.GetDocument(e.ctx, docID, DocUnmarshalAll)
-			if gerr != nil {
+			return h
+		}
+		var script []push
+		live := "a1"
+		tombGen := 2 + variant // how long the branch that gets tombstoned is
+		if e.mode.AllowConflicts {
+			// 1-a1 .. ; a conflicting branch b2 of length tombGen-1 below 1-a1 ending in a tombstone
+			script = append(script, push{chain("a1", 1, 2), false})
+			script = append(script, push{append(chain("b2", 2, tombGen), "1-a1"), true})
+		} else {
+			// conflict-free: delete the document, then resurrect it with a disconnected branch
+			script = append(script, push{chain("a1", 1, tombGen-1), false})
+			script = append(script, push{chain("a1", 1, tombGen), true})
+			live = "b2"
+			script = append(script, push{chain("b2", 1, 1), false})
+		}
+		for _, n := range []int{limit / 2, limit, limit + tombGen - 1, limit + tombGen, limit + tombGen + 1, 2*limit + 7} {
+			script = append(script, push{chain(live, 1, n), false})
+		}
+		var events []string
+		var prev *Document
+		for _, p := range script {
+			body := Body{"m": tag + "/" + p.hist[0], "channels": []string{"c04"}}
+			if p.deleted {
+				body[BodyDeleted] = true
+			}
+			doc, _, err := e.coll.PutExistingRevWithBody(e.ctx, docID, body, p.hist, e.mode.NoConflictsArg, ExistingVersionWithUpdateToHLV)
+			events = append(events, fmt.Sprintf("push %s (history of %d back to %s, deleted=%v) -> err=%v", p.hist[0], len(p.hist), p.hist[len(p.hist)-1], p.deleted, err))
+			cnt["long_chain_pushes"]++
+			if err != nil {
+				run.Note("long chain: push %s into %s (%s) rejected: %v", p.hist[0], docID, e.mode.Name, err)
+				cnt["long_chain_rejected"]++
 				continue
 			}
-			cnt["trees_checked"]++
-			if _, probs := c04CheckDoc(e.ctx, stored); len(probs) > 0 {
-				c04Report(run, "db|"+e.mode.Name+"|hostile-push", probs, map[string]any{"level": "database", "mode": e.mode, "doc": docID, "set": s.key(), "events": events})
-				return
+			stored, gerr := e.coll.GetDocument(e.ctx, docID, DocUnmarshalAll)
+			if gerr != nil {
+				run.Violation("reload", "C04|db|"+e.mode.Name+"|long-chain|document-unreadable-after-accepted-write", gerr.Error(), map[string]any{"doc": docID, "events": events})
+				break
 			}
+			cnt["trees_checked"]++
+			cnt["documents_reloaded"]++
+			run.Max("max_stored_tree_size", len(stored.History))
+			facts, probs := c04CheckDoc(e.ctx, stored)
+			probs = c04ClassifyAfterWrite(probs, prev, stored, p.hist[0], p.deleted)
+			if prev != nil && len(stored.History) < len(prev.History)+len(p.hist)-1 && len(stored.History) < len(p.hist) {
+				cnt["long_chain_writes_that_pruned"]++
+			}
+			if doc != nil {
+				cnt["reloads_compared"]++
+				if d := c04ShapeDiff(doc.History, stored.History); d != "" {
+					probs = append(probs, c04Problem{Oracle: "reload", Sig: "reloaded-tree-differs-from-written-tree", Msg: d})
+				}
+				if doc.GetRevTreeID() != stored.GetRevTreeID() || doc.Flags&c04FlagMask != stored.Flags&c04FlagMask {
+					probs = append(probs, c04Problem{Oracle: "reload", Sig: "reloaded-current-revision-or-indicators-differ", Msg: fmt.Sprintf("written %q %s reloaded %q %s", doc.GetRevTreeID(), c04FlagString(doc.Flags), stored.GetRevTreeID(), c04FlagString(stored.Flags))})
+				}
+			}
+			if _, rp := c04RoundTrip(e.ctx, stored.History); len(rp) > 0 {
+				probs = append(probs, rp...)
+			}
+			if len(probs) == 0 && !facts.WinnerDel {
+				bb, berr := stored.BodyBytes(e.ctx)
+				if want := tag + "/" + facts.Winner; berr != nil || c04Marker(bb) != want {
+					probs = append(probs, c04Problem{Oracle: "winning-body", Sig: "stored-body-is-not-the-winning-revisions-body", Msg: fmt.Sprintf("winner %q body marker %q", facts.Winner, c04Marker(bb))})
+				}
+				cnt["winning_bodies_checked"]++
+			}
+			if len(probs) > 0 {
+				c04Report(run, "db|"+e.mode.Name+"|long-chain", probs, map[string]any{"level": "database", "mode": e.mode, "revs_limit": limit, "doc": docID, "events": events,
+					"stored_leaves": c04LeafList(facts), "stored_flags": c04FlagString(stored.Flags), "stored_tree_size": len(stored.History),
+					"call": "PutExistingRevWithBody(doc, body, history, noConflicts, ExistingVersionWithUpdateToHLV); histories are <gen>-<digest> chains as listed"})
+				break
+			}
+			prev = stored
 		}
 	}
 }
 
 func c04DBModes(run *vlib.Run) []c04Mode {
-	return []c04Mode{
-		{Name: "allow-conflicts", AllowConflicts: true},
-		{Name: "conflict-free", AllowConflicts: false},
-		{Name: "allow-conflicts+noconflicts-client", AllowConflicts: true, NoConflictsArg: true},
-		{Name: "allow-conflicts+revs_limit=1", AllowConflicts: true, RevsLimit: 1},
-		{Name: "allow-conflicts+revs_limit=2", AllowConflicts: true, RevsLimit: 2},
-		{Name: "allow-conflicts+revs_limit=3", AllowConflicts: true, RevsLimit: 3},
-		{Name: "allow-conflicts+revs_limit=4", AllowConflicts: true, RevsLimit: 4},
-		{Name: "conflict-free+revs_limit=2", AllowConflicts: false, RevsLimit: 2},
+	m := []c04Mode{
+		{Name: "allow-conflicts", AllowConflicts: true, Phase: 0},
+		{Name: "conflict-free", AllowConflicts: false, Phase: 0},
+		{Name: "allow-conflicts+noconflicts-client", AllowConflicts: true, NoConflictsArg: true, Phase: 0},
+		{Name: "allow-conflicts+revs_limit=1", AllowConflicts: true, RevsLimit: 1, Phase: 1},
+		{Name: "allow-conflicts+revs_limit=2", AllowConflicts: true, RevsLimit: 2, Phase: 2},
+		{Name: "conflict-free+revs_limit=2", AllowConflicts: false, RevsLimit: 2, Phase: 2},
+		{Name: "allow-conflicts+revs_limit=3", AllowConflicts: true, RevsLimit: 3, Phase: 3},
+		{Name: "allow-conflicts+revs_limit=4", AllowConflicts: true, RevsLimit: 4, Phase: 4},
 	}
+	for i := range m {
+		m[i].Idx = i
+	}
+	return m
 }
 
 func TestVerif_C04_DB(t *testing.T) {
@@ -514,9 +660,18 @@ func TestVerif_C04_DB(t *testing.T) {
 	// revision sets: every set of <= 3 revisions over 3 generations x 2 digests with every tombstone pattern
 	// (interior tombstones = resurrections), plus seeded samples of the 4- and 5-revision sets.
 	var sets []c04Set
-	c04EnumSets([]int{1, 2, 3}, 3, true, func(s c04Set) { sets = append(sets, s) })
+	c04EnumSets([]int{1, 2, 3}, 3, false, func(s c04Set) { sets = append(sets, s) })
 	exhaustive := len(sets)
-	var big4, big5 []c04Set
+	var all3, big4, big5 []c04Set
+	c04EnumSets([]int{1, 2, 3}, 3, true, func(s c04Set) {
+		ip := s.isParent()
+		for i := range s {
+			if ip[i] && s[i].Deleted { // only the sets with an interior tombstone are new
+				all3 = append(all3, s)
+				return
+			}
+		}
+	})
 	c04EnumSets([]int{1, 2, 3, 4}, 5, false, func(s c04Set) {
 		switch len(s) {
 		case 4:
@@ -525,67 +680,103 @@ func TestVerif_C04_DB(t *testing.T) {
 			big5 = append(big5, s)
 		}
 	})
-	pick := func(from []c04Set, n int) {
+	pick := func(from []c04Set, n int, extraTombstones bool) {
+		if n > len(from) {
+			n = len(from)
+		}
 		for _, i := range r.Perm(len(from))[:n] {
 			s := append(c04Set{}, from[i]...)
 			for j := range s { // sometimes tombstone an interior revision too
-				if r.Chance(1, 10) {
+				if extraTombstones && r.Chance(1, 10) {
 					s[j].Deleted = true
 				}
 			}
 			sets = append(sets, s)
 		}
 	}
-	pick(big4, run.N(120, 1500))
-	pick(big5, run.N(60, 1000))
+	pick(all3, run.N(80, 100000), false) // resurrections: interior tombstones (thorough: all of them)
+	pick(big4, run.N(40, 500), true)
+	pick(big5, run.N(20, 300), true)
 	run.Count("revision_sets_exhaustive", exhaustive)
 	run.Count("revision_sets_sampled", len(sets)-exhaustive)
 
 	modes := c04DBModes(run)
-	envs := make([]*c04DBEnv, len(modes))
-	for i, m := range modes {
-		envs[i] = c04OpenDB(t, m)
-	}
+	// the pool has 4 buckets; every bucket serialises its writes, so use two databases per kind and shard the sets
+	dbs := map[bool][]*c04DBEnv{true: {c04OpenDB(t, true), c04OpenDB(t, true)}, false: {c04OpenDB(t, false), c04OpenDB(t, false)}}
 	defer func() {
-		for _, e := range envs {
-			e.db.Close(e.ctx)
+		for _, l := range dbs {
+			for _, e := range l {
+				e.db.Close(e.ctx)
+			}
 		}
 	}()
-
-	var jobs []c04Job
-	for mi, e := range envs {
-		for si, s := range sets {
-			// the two main modes get every set; the others every 3rd exhaustive set and every sampled set of 4
-			if mi >= 2 && !(si%3 == mi%3 || (si >= exhaustive && len(s) == 4)) {
-				continue
-			}
-			var orders [][]int
-			if len(s) <= 4 {
-				c04Perms(len(s), func(p []int) { orders = append(orders, append([]int{}, p...)) })
-			} else {
-				or := r.Fork(uint64(si))
-				seen := map[string]bool{}
-				for len(orders) < 16 {
-					var p []int
-					if len(orders)%2 == 0 {
-						p = s.randomLinearExtension(or)
-					} else {
-						p = or.Perm(len(s))
-					}
-					k := fmt.Sprint(p)
-					if !seen[k] {
-						seen[k] = true
-						orders = append(orders, p)
-					}
-				}
-			}
-			jobs = append(jobs, c04Job{env: e, setIdx: si, set: s, orders: orders})
-		}
-	}
+	defaultLimit := map[bool]uint32{true: dbs[true][0].db.RevsLimit, false: dbs[false][0].db.RevsLimit}
+	run.Note("default revs_limit: conflict-allowing %d, conflict-free %d", defaultLimit[true], defaultLimit[false])
 
 	var total c04Counters
-	var smu sync.Mutex
-	sampled := 0
+	for phase := 0; phase <= 4; phase++ {
+		var jobs []c04Job
+		for mi, m := range modes {
+			if m.Phase != phase {
+				continue
+			}
+			var shard []*c04DBEnv
+			for _, b := range dbs[m.AllowConflicts] {
+				// no write is in flight between phases
+				if m.RevsLimit > 0 {
+					b.db.RevsLimit = m.RevsLimit
+				} else {
+					b.db.RevsLimit = defaultLimit[m.AllowConflicts]
+				}
+				shard = append(shard, b.withMode(m))
+			}
+			if mi < 2 {
+				cnt := map[string]int{}
+				c04LongChain(run, shard[0], cnt)
+				total.add(cnt)
+			}
+			for si, s := range sets {
+				// the two main modes get every set; the others every 4th exhaustive set and every 2nd sampled set
+				if mi >= 2 && !((si < exhaustive && si%4 == mi%4) || (si >= exhaustive && si%2 == mi%2)) {
+					continue
+				}
+				jobs = append(jobs, c04Job{env: shard[si%len(shard)], setIdx: si, set: s, orders: c04DBOrders(r, si, s), hostile: mi < 2 || len(s) <= 3})
+			}
+		}
+		c04RunJobs(run, jobs, &total)
+	}
+	total.flush(run)
+}
+
+func c04DBOrders(r *vlib.Rand, si int, s c04Set) [][]int {
+	var orders [][]int
+	if len(s) <= 4 {
+		c04Perms(len(s), func(p []int) { orders = append(orders, append([]int{}, p...)) })
+		return orders
+	}
+	or := r.Fork(uint64(si))
+	seen := map[string]bool{}
+	for len(orders) < 12 {
+		var p []int
+		if len(orders)%2 == 0 {
+			p = s.randomLinearExtension(or)
+		} else {
+			p = or.Perm(len(s))
+		}
+		k := fmt.Sprint(p)
+		if !seen[k] {
+			seen[k] = true
+			orders = append(orders, p)
+		}
+	}
+	return orders
+}
+
+var c04SampleMu sync.Mutex
+var c04Sampled int
+
+func c04RunJobs(run *vlib.Run, jobs []c04Job, totalp *c04Counters) {
+	total := totalp
 	c04Parallel(len(jobs), func(_ int, ji int) {
 		job := jobs[ji]
 		e := job.env
@@ -594,7 +785,9 @@ func TestVerif_C04_DB(t *testing.T) {
 		for oi := range job.orders {
 			results = append(results, c04RunDoc(run, e, job, oi, cnt))
 		}
-		c04HostileDoc(run, e, job, cnt)
+		if job.hostile {
+			c04HostileDoc(run, e, job, cnt)
+		}
 		// order independence: orders that accepted the same revisions agree
 		groups := map[string][]*c04DocResult{}
 		for _, res := range results {
@@ -638,13 +831,12 @@ func TestVerif_C04_DB(t *testing.T) {
 		run.Nontrivial(e.mode.Name + "|" + job.set.key())
 		run.Distinct("revision_sets", job.set.key())
 		run.Distinct("set_shapes", job.set.class())
-		smu.Lock()
-		if sampled < 3 && len(job.set) >= 3 && len(results) > 1 {
-			sampled++
+		c04SampleMu.Lock()
+		if c04Sampled < 3 && len(job.set) >= 3 && len(results) > 1 {
+			c04Sampled++
 			run.Sample(map[string]any{"mode": e.mode.Name, "set": job.set.key(), "order": results[1].Order, "events": results[1].Events, "outcome": results[1].Finger})
 		}
-		smu.Unlock()
+		c04SampleMu.Unlock()
 		total.add(cnt)
 	})
-	total.flush(run)
 }
